@@ -187,7 +187,12 @@ func RunKeyFile(c *Ctx) error {
 		// export, then import over what already sits at the destination
 		importOver(c, d, d, pass, origPub, "in-place")
 		os.WriteFile(path, orig, 0o600)
-		for ci, junk := range [][]byte{[]byte("{"), []byte("{}"), []byte(`{"priv_key_encrypted":"AAAA","nonce":"AAAA","pub_key":"AAAA"}`), {}} {
+		// (what sits at the destination may be shorter or LONGER than what is written: the same key file re-indented,
+		// a long comment-like tail, a key stored in the long form)
+		longJunk := append([]byte(`{"priv_key_encrypted":"`), bytes.Repeat([]byte("QUFB"), 2000)...)
+		longJunk = append(longJunk, []byte(`","nonce":"AAAA","pub_key":"AAAA"}`)...)
+		reindented := append(append([]byte(nil), orig...), bytes.Repeat([]byte(" \n"), 300)...)
+		for ci, junk := range [][]byte{[]byte("{"), []byte("{}"), []byte(`{"priv_key_encrypted":"AAAA","nonce":"AAAA","pub_key":"AAAA"}`), {}, longJunk, reindented} {
 			dj := filepath.Join(dir, fmt.Sprintf("junk%d-%d", fi, ci))
 			os.MkdirAll(dj, 0o700)
 			os.WriteFile(filepath.Join(dj, "signer.json"), junk, 0o600)
